@@ -49,7 +49,7 @@ MCInit ==
                  /\ \E mk \in 1 .. 8 : \E ev \in {0, 1, 127, 128, 255, 23, 232} : fbits = Pat(24, mk) \o NatBits(ev, 8)
 
 Compute == /\ pc = "call"
-           /\ res' = Decode(kind, fbits, enc, order)
+           /\ res' = NumDecode(kind, fbits, enc, order)
            /\ pc' = "done" /\ UNCHANGED <<kind, fbits, enc, order>>
 MCSpec == MCInit /\ [][Compute]_vars
 
